@@ -14,6 +14,7 @@ UNITS["C03"] = [
     dict(test="TestC03_Raw", quick=dict(checks=3000, shards=2), thorough=dict(checks=60000, shards=8)),
     dict(test="TestC03_Lists", quick=dict(checks=1500, shards=1), thorough=dict(checks=30000, shards=4)),
     dict(test="TestC03_Pairs", quick=dict(), thorough=dict()),
+    dict(test="TestC03_Tails", quick=dict(), thorough=dict()),
     dict(test="TestC03_Sizes", crash_is_violation=True, quick=dict(), thorough=dict(timeout=3000)),
     dict(test="TestC03_StackLimit", quick=dict(skip=True), thorough=dict(timeout=3000)),
     dict(fuzz="FuzzAPI", thorough=dict(fuzztime=15)),
@@ -98,6 +99,7 @@ UNITS["C14"] = [
 
 UNITS["C15"] = [
     dict(test="TestC15_Offsets", quick=dict(checks=5000, shards=2), thorough=dict(checks=60000, shards=16)),
+    dict(test="TestC15_AnyError", quick=dict(checks=4000, shards=2), thorough=dict(checks=60000, shards=8)),
 ]
 
 RULES = {
